@@ -2,6 +2,16 @@
 HOOK_COMMITS = []
 PENDING = {}
 CLAIMS = {
+    "C07": {
+        "technique": "TLA+ spec (RuleLang.tla: word-level meaning of rule patterns, keys, negated forms), TLC MC of the language laws + TLC-enumerated (pattern,row) product replayed into annet's rule compilers + TLC trace judge",
+        "text": "TLC checks the algebraic laws of the rule language (negated form recognised with the same key, double negation, key arity, word boundaries) on every "
+                "pattern <=3 (thorough 4) tokens x row <=4 (5) words; the enumerated patterns and rows are rendered to rule text and the product is run through "
+                "compile_row_regexp/_make_reverse and the patching/ACL/ordering/deploy compilers; every shipped rule line (all vendors and hardware variants) is lexed "
+                "into tokens with synthesised and mutated rows; cache/flag interplay is exercised in one process; every real (matched,key,reverse,negated-form) outcome "
+                "is judged by Trace_RuleLang against the P-layer.",
+        "note": "Trusted: TLC, the token lexer/printer, Python re.fullmatch for single-word sub-regex tables. No A-layer (the implementation is a regex macro-expander); "
+                "constructs outside the token language (mid-row ~, ~/re/, anchors, alternations across words) are counted as skipped, not judged.",
+    },
     "C05": {
         "technique": "TLA+ spec (Offside.tla: declarative rule vs indent-stack machine), TLC exhaustive MC + TLC-generated texts replayed into parse_to_tree + TLC trace judge",
         "text": "TLC proves the transcription of annet's indent-stack machine equal to the declarative offside rule on every text in the bound "
